@@ -76,6 +76,10 @@ Definition spec_comments (cs : list (list string)) : list string := dedup (List.
 Definition first_nonempty (l : list string) : string :=
   match filter (fun s => negb (String.eqb s "")) l with [] => "" | x :: _ => x end.
 
+(* Known finding F25: "period is the maximum" fails when a negative period is present (the code
+   treats 0 as "unset": periods [0; -5] give -5).  The class: some input has a negative period. *)
+Definition in_F25 (ps : list profile) : bool := existsb (fun p => p_period p <? 0) ps.
+
 (* ------------------------------------------------------------------ validity (Profile.CheckValid) *)
 Fixpoint nodupZ (l : list Z) : bool :=
   match l with [] => true | a :: r => negb (existsb (Z.eqb a) r) && nodupZ r end.
@@ -139,7 +143,7 @@ Definition headers_b (ps : list profile) (q : profile) : bool :=
   | p0 :: _ =>
       (p_timenanos q =? spec_time (map p_timenanos ps)) &&
       (p_durationnanos q =? spec_duration (map p_durationnanos ps)) &&
-      (negb (forallb (fun p => 0 <=? p_period p) ps) || (p_period q =? spec_period (map p_period ps))) &&
+      (p_period q =? spec_period (map p_period ps)) &&
       strs_eqb (p_comments q) (spec_comments (map p_comments ps)) &&
       String.eqb (p_defaultsampletype q) (first_nonempty (map p_defaultsampletype ps)) &&
       String.eqb (p_docurl q) (first_nonempty (map p_docurl ps)) &&
